@@ -18,6 +18,15 @@ from typing import Any, Callable
 _real_get_ident = threading.get_ident
 
 
+def _new_baton():
+    """Binary semaphore, initially unavailable (raw lock: much cheaper than Semaphore)."""
+    import _thread
+
+    lk = _thread.allocate_lock()
+    lk.acquire()
+    return lk
+
+
 class SimKilled(BaseException):
     """Raised inside tasks of a crashed process (kill -9 model: seams stop having effects)."""
 
@@ -63,7 +72,7 @@ class Task:
         self.proc = proc
         self.name = name
         self.fn = fn
-        self.sem = threading.Semaphore(0)
+        self.sem = _new_baton()
         self.done = False
         self.started = False
         self.blocked: Callable[[], bool] | None = None
@@ -74,6 +83,7 @@ class Task:
         self.nyield = 0  # per-task yield-point counter (decision key)
         self.nseam = 0  # per-task seam-call counter (fault key)
         self.killed = False
+        self.daemon = False  # daemon tasks do not keep sim.run() going (server pools, heartbeats)
         proc._ident_n += 1
         self.ident = 1000 * (proc.index + 1) + proc._ident_n
         self.thread = threading.Thread(target=self._run, daemon=True, name="sim-" + name)
@@ -173,7 +183,7 @@ class Sim:
         self.cur: Task | None = None
         self.log: list[Any] = []
         self.digest = hashlib.blake2b(digest_size=16)
-        self._main_sem = threading.Semaphore(0)
+        self._main_sem = _new_baton()
         self._code_cache: dict[Any, bool] = {}
         self.counters: dict[str, int] = {}
         self.harness_proc = self.proc("harness")
@@ -453,7 +463,7 @@ class Sim:
                 if tgt is None or tgt.done or tgt.proc.dead:
                     key_used = True
                     live = [t for t in self.tasks if not t.done and not t.proc.dead]
-                    if not live:
+                    if not [t for t in live if not t.daemon]:
                         break
                     cands = self._candidates(None)
                     ready = [t for t in cands if t.blocked is not None or t.wake is None or t.wake <= self.now]
@@ -498,7 +508,7 @@ class Sim:
                     break
                 self.digest.update(("r:%s\n" % tgt.name).encode()) if key_used else None
                 tgt.sem.release()
-                if not self._main_sem.acquire(timeout=60):
+                if not self._main_sem.acquire(True, 120):
                     raise HarnessError("task %s did not yield within 60 s of real time (stuck on a real lock?)" % tgt.name)
                 for h in self.step_hooks:
                     h()
@@ -507,7 +517,7 @@ class Sim:
             self.cur = None
         if self.capped:
             status = "stepcap"
-        if status != "ok" or any(not t.done for t in self.tasks):
+        if status != "ok":
             self.teardown()
         return status
 
@@ -683,3 +693,101 @@ class ThreadingShim:
 
     def __getattr__(self, name: str) -> Any:
         return getattr(threading, name)
+
+
+# ---------------------------------------------------------------------- executor
+class SimFuture:
+    def __init__(self, sim: Sim) -> None:
+        self.sim = sim
+        self._done = False
+        self._result: Any = None
+        self._exc: BaseException | None = None
+
+    def done(self) -> bool:
+        return self._done
+
+    def result(self, timeout: float | None = None) -> Any:
+        s = self.sim
+        if not self._done:
+            s.seam("future.result")
+            s.block_until(lambda: self._done, "future", timeout)
+        if self._exc is not None:
+            raise self._exc
+        return self._result
+
+    def exception(self, timeout: float | None = None) -> BaseException | None:
+        if not self._done:
+            self.sim.block_until(lambda: self._done, "future", timeout)
+        return self._exc
+
+
+class SimExecutor:
+    """concurrent.futures.ThreadPoolExecutor on simulated tasks (idle workers are reused,
+    FIFO work queue, shutdown(wait=True) on __exit__ - like the real one)."""
+
+    def __init__(self, sim: Sim, max_workers: int | None = None) -> None:
+        self.sim = sim
+        self.max_workers = max_workers or 4
+        self.queue: list[tuple] = []
+        self.workers: list[Task] = []
+        self.idle = 0
+        self.shutdown_flag = False
+        self.proc = sim.current_proc()
+        self.parent = sim.cur.name if sim.in_task() else "h"
+
+    def submit(self, fn: Any, *a: Any, **k: Any) -> SimFuture:
+        s = self.sim
+        f = SimFuture(s)
+        self.queue.append((f, fn, a, k))
+        if self.idle == 0 and len(self.workers) < self.max_workers:
+            name = "%s/x%d" % (self.parent, len(self.workers))
+            self.workers.append(s.spawn(self.proc, name, self._worker))
+        if s.in_task():
+            s.seam("executor.submit")
+        return f
+
+    def _worker(self) -> None:
+        s = self.sim
+        while True:
+            self.idle += 1
+            try:
+                s.block_until(lambda: bool(self.queue) or self.shutdown_flag, "executor.idle")
+            finally:
+                self.idle -= 1
+            if not self.queue:
+                return
+            f, fn, a, k = self.queue.pop(0)
+            try:
+                f._result = fn(*a, **k)
+            except SimKilled:
+                raise
+            except BaseException as e:  # noqa
+                f._exc = e
+            f._done = True
+            s.seam("executor.done")
+
+    def shutdown(self, wait: bool = True, cancel_futures: bool = False) -> None:
+        self.shutdown_flag = True
+        s = self.sim
+        if wait and s.in_task():
+            s.seam("executor.shutdown")
+            s.block_until(lambda: all(w.done for w in self.workers), "executor.join")
+
+    def __enter__(self) -> "SimExecutor":
+        return self
+
+    def __exit__(self, *a: Any) -> None:
+        self.shutdown(wait=True)
+
+
+def sim_wait(sim: Sim, fs: Any, timeout: float | None = None, return_when: str = "ALL_COMPLETED") -> tuple:
+    fs = set(fs)
+    if return_when == "FIRST_COMPLETED":
+        pred = lambda: any(f._done for f in fs)  # noqa
+    else:
+        pred = lambda: all(f._done for f in fs)  # noqa
+    if not pred():
+        sim.seam("futures.wait")
+        sim.block_until(pred, "futures.wait", timeout)
+    done = {f for f in fs if f._done}
+    return done, fs - done
